@@ -136,6 +136,8 @@ class Connection(ExportImport):
 
         self._normal_storage = self._storage = storage
         self._savepoint_storage = None
+        # savepoint data being committed, kept until the outcome is known
+        self._committing_savepoint_storage = None
 
         # Do we need to join a txn manager?
         self._needs_to_join = True
@@ -485,6 +487,9 @@ class Connection(ExportImport):
         self._needs_to_join = True
         self._registered_objects = []
         self._creating.clear()
+        if self._committing_savepoint_storage is not None:
+            self._committing_savepoint_storage.close()
+            self._committing_savepoint_storage = None
 
     def tpc_begin(self, transaction):
         """Begin commit of a transaction, starting the two-phase commit."""
@@ -722,6 +727,25 @@ class Connection(ExportImport):
         if creating is None:
             creating = self._creating
             self._creating = {}
+
+        # New objects stored by a savepoint may have been turned into
+        # ghosts by the cache since.  Without jar they could never load
+        # their state again: give it back from the savepoint data while
+        # we can (and while the objects they refer to are still cached).
+        src = self._savepoint_storage or self._committing_savepoint_storage
+        if src is not None:
+            storage, self._storage = self._storage, src
+            try:
+                for oid in creating:
+                    o = self._cache.get(oid)
+                    if (o is not None and o._p_changed is None
+                            and oid in src.index):
+                        try:
+                            o._p_activate()
+                        except Exception:
+                            pass
+            finally:
+                self._storage = storage
 
         for oid in creating:
             o = self._cache.get(oid)
@@ -1103,7 +1127,9 @@ class Connection(ExportImport):
 
                 self._readCurrent.pop(oid, None)  # same as in _store_objects()
         finally:
-            src.close()
+            # Kept until the transaction ends: if it fails, new objects
+            # that the cache turned into ghosts get their state from it.
+            self._committing_savepoint_storage = src
 
     def _abort_savepoint(self):
         """Discard all savepoint data."""
